@@ -360,6 +360,19 @@ def main():
                 samples.append({"scenario": j["scenario"], "shape": j.get("shape"), "params": j.get("params"), "concrete": j.get("concrete"), "group": g["name"], "form": g["form"], "claim": g["claim"], "items": ([i["name"] for i in g["items"]] + [q["name"] for q in g.get("raw", [])])[:12], "n_vars": len(g["vars"]), "vars_head": g["vars"][:12], "verdict": results[gkey(f, gi, g)]["verdict"], "path_conditions_head": j.get("path_conditions", [])[:4]})
     # three written-out samples: those with the most solver-decided items, first come first among equals
     samples = sorted(samples, key=lambda x: -min(len(x["items"]), 12))[:3]
+    # scenarios without solver groups (concrete companions, enumerations): written out with their first checks
+    if len(samples) < 3:
+        for f, j in jobs:
+            if len(samples) >= 3:
+                break
+            if j["structural"] and not j["groups"]:
+                samples.append({"scenario": j["scenario"], "shape": j.get("shape"), "params": j.get("params"), "kind": "structural / concrete checks on the real code (no solver group in this scenario)",
+                                "checks_head": [{"name": c["name"][:300], "ok": c["ok"]} for c in j["structural"][:6]], "n_checks": len(j["structural"])})
+    # model-checking style counts (measured): a symbolic state = one node of the hash-consed term arena (a value of the
+    # symbolic execution: field terms and point combinations) or one logged path-condition event; a transition = one
+    # decided step: a solver-decided obligation or a structural check on the trace
+    n_states = sum(int((j.get("stats") or {}).get(k, 0) or 0) for f, j in jobs for k in ("terms", "points", "events"))
+    n_traces = sum(1 for f, j in jobs if j.get("concrete") not in (None, {}, [])) + sum(1 for f, j in jobs if j["structural"] and not j["groups"])
     # --- replay violations natively
     reproduced = []
     replay_cache = {}
@@ -405,6 +418,10 @@ def main():
             "distinct_solver_queries": len([1 for (w, key) in work if w[2]["items"]]) + sum(len(w[2].get("raw", [])) for (w, key) in work),
             "rule": "one evaluation = one scenario (call skeleton x error plan / deviation / field x capacities x shadow curve) in which the real generic code is executed (symbolically on the carriers, or natively for the concrete companions); a scenario is non-trivial when it produced at least one obligation or structural check; distinct = by scenario name; distinct_solver_queries = solver queries deduplicated by text with at least one non-syntactic obligation",
             "samples": samples,
+            "states": max(1, n_states + len(jobs)),
+            "transitions": max(1, obligations + structural_total),
+            "traces_validated_against_impl": n_traces + len(reproduced),
+            "states_rule": "states = nodes of the hash-consed term arena (symbolic field values and point combinations) + logged path-condition events + one per scenario, summed over scenarios; transitions = solver-decided obligations + structural checks; traces_validated_against_impl = scenarios whose concrete shadow run on a real curve (the same execution of the real code) was compared with the expected verdict, plus concrete companion scenarios, plus native replays of counter-models",
             "obligations": obligations,
             "discharged": discharged,
             "identities_closed_by_hash_consing": sum(g.get("n_syntactic", 0) for f, j in jobs for g in j["groups"]),
